@@ -6,6 +6,70 @@ use neurons::{activation::Activation, feedback, network::Network, objective, opt
 
 #[path = "../../sim/fidelity.rs"]
 mod fidelity;
+// the harness's configuration types (what `nsim export-e2` writes), shared by path
+#[allow(dead_code)]
+#[path = "../../harness/src/cfg.rs"]
+mod cfg;
+mod exec {
+    pub fn set_phase(_phase: &'static str) {}
+}
+
+#[derive(serde::Deserialize)]
+struct Data {
+    x: Vec<Vec<f32>>,
+    y: Vec<Vec<f32>>,
+}
+
+#[derive(serde::Deserialize)]
+struct Generated {
+    net: cfg::NetCfg,
+    train: Data,
+    batch: usize,
+    epochs: i32,
+    val: Option<Data>,
+    early_tol: i32,
+    pred: Vec<Vec<f32>>,
+}
+
+/// One generated scenario: build -> learn (with its validation data, if any) -> predict_batch;
+/// digest of every observable bit pattern.
+fn run_generated(sc: &Generated) -> u64 {
+    let mut net = sc.net.build();
+    let xs: Vec<tensor::Tensor> = sc.train.x.iter().map(|x| sc.net.input_tensor(x)).collect();
+    let ys: Vec<tensor::Tensor> = sc.train.y.iter().map(|y| tensor::Tensor::single(y.clone())).collect();
+    let (vx, vy): (Vec<tensor::Tensor>, Vec<tensor::Tensor>) = match &sc.val {
+        Some(v) => (
+            v.x.iter().map(|x| sc.net.input_tensor(x)).collect(),
+            v.y.iter().map(|y| tensor::Tensor::single(y.clone())).collect(),
+        ),
+        None => (Vec::new(), Vec::new()),
+    };
+    let xr: Vec<&tensor::Tensor> = xs.iter().collect();
+    let yr: Vec<&tensor::Tensor> = ys.iter().collect();
+    let vxr: Vec<&tensor::Tensor> = vx.iter().collect();
+    let vyr: Vec<&tensor::Tensor> = vy.iter().collect();
+    let validation = if sc.val.is_some() { Some((&vxr, &vyr, sc.early_tol)) } else { None };
+    let mut h: u64 = 0xcbf2_9ce4_8422_2325;
+    let mut eat = |x: f32| {
+        h = (h ^ x.to_bits() as u64).wrapping_mul(0x0000_0100_0000_01B3);
+    };
+    let (tl, vl, va) = net.learn(&xr, &yr, validation, sc.batch, sc.epochs, None);
+    for x in tl.iter().chain(vl.iter()).chain(va.iter()) {
+        eat(*x);
+    }
+    for p in cfg::parameters(&net) {
+        p.iter().for_each(|x| eat(*x));
+    }
+    let px: Vec<tensor::Tensor> = sc.pred.iter().map(|x| sc.net.input_tensor(x)).collect();
+    let pxr: Vec<&tensor::Tensor> = px.iter().collect();
+    for (i, out) in net.predict_batch(&pxr).iter().enumerate() {
+        eat(i as f32);
+        for x in cfg::flat(out) {
+            eat(x);
+        }
+    }
+    h
+}
 
 struct Lcg(u64);
 impl Lcg {
@@ -92,6 +156,18 @@ fn main() {
         let pool = rayon::ThreadPoolBuilder::new().num_threads(1).build().unwrap();
         println!("== called from inside the pool");
         print!("{}", pool.install(fidelity::fidelity_log));
+        return;
+    }
+    if args.get(1).map(|s| s.as_str()) == Some("gen") {
+        // miri-pool gen <scenario json> <threads> <hash seed>   (the scenario travels in argv:
+        // Miri's isolation stays on, nothing is read from disk)
+        let sc: Generated = serde_json::from_str(&args[2]).expect("scenario json");
+        let threads: usize = args[3].parse().unwrap();
+        let hash_seed: u64 = args.get(4).and_then(|s| s.parse().ok()).unwrap_or(0);
+        rayon::ThreadPoolBuilder::new().num_threads(threads).build_global().unwrap();
+        verif::set_clock(Some((424_242, 1_337)));
+        verif::set_hash_seed(hash_seed);
+        println!("DIGEST {:016x}", run_generated(&sc));
         return;
     }
     let id: usize = args.get(1).and_then(|s| s.parse().ok()).unwrap_or(0);
